@@ -9,6 +9,7 @@ import (
 	"context"
 	"errors"
 	"fmt"
+	"strings"
 	"time"
 
 	"github.com/codenotary/immudb/embedded/store"
@@ -216,6 +217,120 @@ func scenario(v variant) sched.Scenario {
 	}}
 }
 
+// scenarioDiscard: "… not after precommit discarding": a store with external commit allowance (sync replication) holds a
+// small precommitted tx 2, discards it (fail-over), the id is re-used by a large transaction (record above the 4 KiB
+// read buffer) which is then allowed and acknowledged. What was acknowledged is what every later read returns.
+func scenarioDiscard() sched.Scenario {
+	return sched.Scenario{Name: "extallow-discard-reuse", MaxSteps: 1000000, Body: func(dir string) string {
+		opts := func() *store.Options {
+			return baseOpts().WithExternalCommitAllowance(true).WithMaxTxEntries(64).WithMaxKeyLen(80).WithFileSize(1 << 16)
+		}
+		st, err := store.Open(dir, opts())
+		if err != nil {
+			sched.Report("open-failed", err.Error())
+			return "open-failed"
+		}
+		l := storeh.NewLedger()
+		commit := func(cctx context.Context, n int, tag string) (*store.TxHeader, error) {
+			tx, err := st.NewWriteOnlyTx(cctx)
+			if err != nil {
+				return nil, err
+			}
+			for i := 0; i < n; i++ {
+				tx.Set([]byte(fmt.Sprintf("%s%02d-%s", tag, i, strings.Repeat("x", 60))), nil, []byte(tag))
+			}
+			return tx.Commit(cctx)
+		}
+		ack := func(who string, h *store.TxHeader) {
+			rec, err := storeh.ReadRec(st, h.ID, true)
+			if err != nil {
+				sched.Report("acked-unreadable prog="+who, fmt.Sprintf("tx %d acknowledged but ReadTx fails: %v", h.ID, err))
+				return
+			}
+			if rec.Alh != h.Alh() {
+				sched.Report("acked-header-mismatch prog="+who, fmt.Sprintf("tx %d: the header returned by Commit (alh %x) differs from the stored one (alh %x)", h.ID, h.Alh(), rec.Alh))
+			}
+			sched.Shared(func() { l.Acked[h.ID] = rec })
+		}
+		waitPre := func(id uint64) {
+			for st.LastPrecommittedTxID() < id {
+				vsched.Pause("poll")
+			}
+		}
+		ctx := context.Background()
+		res := make([]string, 3)
+		vsched.Focus()
+		vsched.Spawn(func() { // tx 1
+			if h, err := commit(ctx, 2, "one"); err != nil {
+				res[0] = "err:" + err.Error()
+			} else {
+				ack("tx1", h)
+				res[0] = fmt.Sprintf("tx%d", h.ID)
+			}
+		})
+		vsched.Spawn(func() { // controller: what a replication fail-over does
+			waitPre(1)
+			if err := st.AllowCommitUpto(1); err != nil {
+				sched.Report("allow-failed", err.Error())
+			}
+			// small tx 2 of the old primary: stays precommitted; its committer gives up (context cancelled) before the
+			// fail-over discards it
+			actx, cancelA := context.WithCancel(ctx)
+			doneA := false
+			vsched.Spawn(func() {
+				if _, err := commit(actx, 1, "old"); err == nil {
+					res[1] = "committed!"
+					sched.Report("unallowed-tx-committed", "a transaction beyond the commit allowance was reported committed")
+				} else {
+					res[1] = "cancelled"
+				}
+				sched.Shared(func() { doneA = true })
+			})
+			waitPre(2)
+			cancelA()
+			for !doneA {
+				vsched.Pause("poll")
+			}
+			if _, err := st.DiscardPrecommittedTxsSince(2); err != nil {
+				sched.Report("discard-failed", err.Error())
+			}
+			vsched.Spawn(func() { // large tx 2 of the new primary
+				if h, err := commit(ctx, 60, "new"); err != nil {
+					res[2] = "err:" + err.Error()
+				} else {
+					ack("tx2-new", h)
+					res[2] = fmt.Sprintf("tx%d", h.ID)
+				}
+			})
+			waitPre(2)
+			if err := st.AllowCommitUpto(2); err != nil {
+				sched.Report("allow-failed", err.Error())
+			}
+		})
+		vsched.Join()
+		if d := l.CheckHistory(st, 0); d != "" {
+			sched.Report("history-breach phase=end "+firstWords(d), d)
+		}
+		fp := storeh.Fingerprint(st)
+		if err := st.Close(); err != nil {
+			sched.Report("close-failed", err.Error())
+		}
+		st, err = store.Open(dir, opts())
+		if err != nil {
+			sched.Report("reopen-failed", err.Error())
+			return fmt.Sprint(res) + " reopen-failed"
+		}
+		if d := l.CheckHistory(st, 0); d != "" {
+			sched.Report("history-breach phase=reopen "+firstWords(d), d)
+		}
+		if fp2 := storeh.Fingerprint(st); fp2 != fp {
+			sched.Report("history-changed-by-reopen", fmt.Sprintf("before close: %s\nafter reopen: %s", fp, fp2))
+		}
+		st.Close()
+		return fmt.Sprint(res) + " " + fp
+	}}
+}
+
 func firstWords(s string) string {
 	// stable class of a history breach: text up to the first digit
 	for i, r := range s {
@@ -269,8 +384,10 @@ func main() {
 	for _, v := range variants {
 		scs = append(scs, scenario(v))
 	}
+	scs = append(scs, scenarioDiscard())
 	var jobs []sched.Job
 	if c.Thorough() {
+		jobs = append(jobs, sched.Job{Scenario: "extallow-discard-reuse", Bound: 1, Budget: 2 * time.Minute})
 		for _, v := range variants {
 			jobs = append(jobs, sched.Job{Scenario: v.name, Bound: 1, Budget: 2 * time.Minute})
 		}
@@ -279,8 +396,9 @@ func main() {
 		}
 		jobs = append(jobs, sched.Job{Scenario: "2commit", Bound: 1 << 20, Budget: 4 * time.Minute})
 	} else {
+		jobs = append(jobs, sched.Job{Scenario: "extallow-discard-reuse", Bound: 1, Budget: 12 * time.Second})
 		for _, v := range variants {
-			jobs = append(jobs, sched.Job{Scenario: v.name, Bound: 1, Budget: 25 * time.Second})
+			jobs = append(jobs, sched.Job{Scenario: v.name, Bound: 1, Budget: 14 * time.Second})
 		}
 	}
 	_ = errors.Is
